@@ -8,6 +8,7 @@ package transformer
 
 import (
 	"strings"
+	"unicode/utf8"
 
 	"github.com/antlr4-go/antlr/v4"
 
@@ -103,6 +104,11 @@ func verifPrePassLemmas(data string) {
 				// a segment in front of a carriage return: same length (what was cut is blanked out, so that the
 				// rest of the line keeps its columns); from the first changed column on nothing but blanks,
 				// and only a comment or trailing blanks can have been changed
+				// (in characters: columns are counted in runes; for ASCII input that is the length in bytes)
+				if !verifASCII() {
+					zzverif.Assert(utf8.RuneCountInString(c) == utf8.RuneCountInString(d), "segment-before-carriage-return-keeps-its-length")
+					continue
+				}
 				zzverif.Assert(len(c) == len(d), "segment-before-carriage-return-keeps-its-length")
 				if len(c) != len(d) {
 					return
@@ -129,7 +135,7 @@ func verifPrePassLemmas(data string) {
 	// C16: a position in the cleaned text is a position in the original text - line for line (lines as ANTLR counts
 	// them: at line feeds) the cleaned line is no longer than the original and agrees with it at every column,
 	// except where it holds a blank (a removed comment in front of a carriage return may be blanked out)
-	{
+	if verifASCII() {
 		for i := range cn {
 			if i >= len(dn) {
 				break
@@ -151,10 +157,26 @@ func verifPrePassLemmas(data string) {
 	zzverif.Reach("lemmas-checked")
 }
 
-// VerifC03_PrePass: all byte strings up to N.
+// verifASCII: the job draws its bytes from 0x00..0x7f (ASCII=1): bytes are characters, the column lemmas are stated
+// byte for byte.  Without it every byte value occurs and the lemmas that count columns count runes.
+func verifASCII() bool { return zzverif.Param("ASCII", 0) == 1 }
+
+var verifASCIIAlphabet = func() string {
+	b := make([]byte, 128)
+	for i := range b {
+		b[i] = byte(i)
+	}
+	return string(b)
+}()
+
+// VerifC03_PrePass: all byte strings up to N (ASCII=1: all strings over 0x00..0x7f).
 func VerifC03_PrePass() {
 	n := zzverif.Param("N", 6)
-	verifPrePassLemmas(zzverif.Str("data", 0, n, ""))
+	alpha := ""
+	if verifASCII() {
+		alpha = verifASCIIAlphabet
+	}
+	verifPrePassLemmas(zzverif.Str("data", 0, n, alpha))
 }
 
 // VerifC03_PrePassTemplate: up to L lines, each = indent (0..2 blanks) + body of
@@ -174,4 +196,25 @@ func VerifC03_PrePassTemplate() {
 		sb = append(sb, l)
 	}
 	verifPrePassLemmas(strings.Join(sb, "\n"))
+}
+
+// VerifC16_PrePassRunes: columns are counted in characters (ANTLR's char positions are runes).  A comment that is
+// blanked out in front of a carriage return has to be replaced by as many blanks as it has CHARACTERS, also when
+// it holds text outside ASCII; body and tail are symbolic, the comment text comes from a menu.
+func VerifC16_PrePassRunes() {
+	body := zzverif.Str("body", 1, 2, "ab")
+	tail := zzverif.Str("tail", 1, 2, "ab")
+	cm := []struct {
+		text  string
+		runes int
+	}{{"c", 1}, {"é", 1}, {"日本", 2}, {"xé日", 3}}[zzverif.Choose("comment", 4)]
+	data := body + " #" + cm.text + "\r" + tail
+	cleaned, ok := verifCleaned(data)
+	zzverif.Assert(ok, "prepass-reaches-lexer")
+	if !ok {
+		return
+	}
+	want := body + strings.Repeat(" ", 2+cm.runes) + "\r" + tail
+	zzverif.Assert(cleaned == want, "columns-are-preserved-in-characters")
+	zzverif.Reach("lemmas-checked")
 }
